@@ -1,5 +1,11 @@
 """Per-property manifest rows: id -> (level category, engine, technique, level text, level note)."""
 T = {
+ "C05": ("exploration", "E1+E2", "bounded exhaustive enumeration of length tuples and of expand-call histories positioned at every offset around the 255-block limit, on the real code against RFC 5869 / RFC 8018 reference",
+         "All enumerated length tuples, iteration counts and three-call expand histories are executed; served bytes, refusal status and zero-filled tails are compared with the reference stream.",
+         "Reference HMAC/hash bound to KAT corpus; PBKDF2 counts up to 10 (1000 in thorough)."),
+ "C06": ("exploration", "E1+LPC+E2", "bounded exhaustive enumeration of shapes against the reference, affine-basis enumeration under the linearised permutation, and exhaustive enumeration of all key-object operation sequences up to depth 4/5 on the real code",
+         "Every shape up to the bound for the 6 SIV/ISAP algorithms on 5 backends equals the reference; every operation history up to the depth over an original and a saved+loaded ISAP key keeps the key objects bit-identical and all results equal to the reference.",
+         "SIV semantics as pinned by KAT + code (permute-then-squeeze); ISAP reference bound to KAT."),
  "C02": ("exploration", "E1", "bounded exhaustive enumeration of forgeries: every single-bit flip of every ciphertext/tag/AD/nonce/key byte, every tag-byte XOR value, every truncation and extension, per length shape and family, on the real code",
          "For each of the 15 AEAD families and each enumerated shape, the round trip and every member of the stated forgery classes is executed; each forgery must be rejected and (one-shot families) leave an all-zero plaintext buffer.",
          "2^-128 tag collisions excluded; value patterns {counting, dense}; lengths up to the stated bound."),
